@@ -189,8 +189,8 @@ fn matrix(slice: usize, out: &mut ItemOut) {
 
 #[derive(Clone, Debug, PartialEq, Eq, PartialOrd, Ord, Hash)]
 enum Op {
-    /// (channel, pattern variant)
-    Open(usize, usize),
+    /// (channel, pattern variant, handler kinds: 0 = all four, 1 = start/complete/error only, 2 = message only)
+    Open(usize, usize, usize),
     Close(usize),
     Unsub(usize),
     EmitOk,
@@ -209,26 +209,34 @@ fn variant_match(v: usize, m: &Message) -> bool {
 
 type Reg = [Option<usize>; 2];
 
-fn histories(depth: usize, out: &mut ItemOut) {
+fn histories(depth: usize, first: usize, out: &mut ItemOut) {
     let mut seen: BTreeSet<Reg> = BTreeSet::new();
     let mut viols: BTreeMap<String, (String, Vec<Op>)> = BTreeMap::new();
     let mut edges = 0i64;
     // every operation sequence up to the depth (the registration state alone does not carry the
     // hidden state of the emitter, so sequences are enumerated, not only reference states)
     let mut queue: VecDeque<Vec<Op>> = VecDeque::new();
-    queue.push_back(vec![]);
     let alphabet = |reg: &Reg| {
         let mut v = vec![Op::EmitOk, Op::EmitErr];
         for c in 0..2 {
-            v.push(Op::Open(c, 0));
-            v.push(Op::Open(c, 1));
+            // channel 0 registers every subset shape of handler kinds, channel 1 all four
+            for kinds in 0..(if c == 0 { 3 } else { 1 }) {
+                v.push(Op::Open(c, 0, kinds));
+                v.push(Op::Open(c, 1, kinds));
+            }
+            // close / unsub are also tried on a channel that is not registered (no effect expected)
+            v.push(Op::Close(c));
             if reg[c].is_some() {
-                v.push(Op::Close(c));
                 v.push(Op::Unsub(c));
             }
         }
         v
     };
+    // this work item: the sequences that begin with the `first`-th operation of the initial alphabet
+    match alphabet(&[None, None]).get(first) {
+        Some(op) => queue.push_back(vec![op.clone()]),
+        None => return,
+    }
     while let Some(path) = queue.pop_front() {
         // run the path on a fresh engine
         let mut sess = Session::new(&Cfg::default());
@@ -237,20 +245,29 @@ fn histories(depth: usize, out: &mut ItemOut) {
         let logs: Arc<Mutex<Vec<(usize, &'static str, String)>>> = Arc::new(Mutex::new(vec![]));
         let mut chans: Vec<Option<Arc<acts::Channel>>> = vec![None, None];
         let mut reg: Reg = [None, None];
+        // channel -> handler kind -> pattern variant registered for it
+        let mut per_kind: [BTreeMap<&'static str, usize>; 2] = [BTreeMap::new(), BTreeMap::new()];
         let mut n_proc = 0;
         for (k, op) in path.iter().enumerate() {
             let last = k + 1 == path.len();
             let before_log = logs.lock().unwrap().len();
             let before_all = sess.delivered.lock().unwrap().len();
             match op {
-                Op::Open(c, v) => {
+                Op::Open(c, v, kinds) => {
                     let ch = sess.engine.channel_with_options(&ChannelOptions {
                         id: format!("chan{c}"),
                         r#type: VARIANTS[*v].0.into(),
                         state: VARIANTS[*v].1.into(),
                         ..Default::default()
                     });
-                    for kind in ["message", "start", "complete", "error"] {
+                    // registering again replaces the handlers of the kinds that are registered now;
+                    // the reference keeps the pattern per handler kind
+                    let which: &[&'static str] = match kinds {
+                        0 => &["message", "start", "complete", "error"],
+                        1 => &["start", "complete", "error"],
+                        _ => &["message"],
+                    };
+                    for kind in which.iter().copied() {
                         let l = logs.clone();
                         let c2 = *c;
                         let f = move |e: &acts::Event<Message>| l.lock().unwrap().push((c2, kind, e.id.clone()));
@@ -263,16 +280,24 @@ fn histories(depth: usize, out: &mut ItemOut) {
                     }
                     chans[*c] = Some(ch);
                     reg[*c] = Some(*v);
+                    for kind in which.iter().copied() {
+                        per_kind[*c].insert(kind, *v);
+                    }
                 }
                 Op::Close(c) => {
-                    if let Some(ch) = &chans[*c] {
-                        ch.close();
+                    match &chans[*c] {
+                        Some(ch) => ch.close(),
+                        None => {
+                            let _ = sess.engine.executor().msg().unsub(&format!("chan{c}"));
+                        }
                     }
                     reg[*c] = None;
+                    per_kind[*c].clear();
                 }
                 Op::Unsub(c) => {
                     let _ = sess.engine.executor().msg().unsub(&format!("chan{c}"));
                     reg[*c] = None;
+                    per_kind[*c].clear();
                 }
                 Op::EmitOk | Op::EmitErr => {
                     n_proc += 1;
@@ -288,9 +313,9 @@ fn histories(depth: usize, out: &mut ItemOut) {
                 let got: Vec<(usize, &'static str, String)> = logs.lock().unwrap()[before_log..].to_vec();
                 for c in 0..2 {
                     let mut want: Vec<(&'static str, String)> = vec![];
-                    if let Some(v) = reg[c] {
-                        for (kind, m) in &emitted {
-                            if variant_match(v, m) {
+                    for (kind, m) in &emitted {
+                        if let Some(v) = per_kind[c].get(kind) {
+                            if variant_match(*v, m) {
                                 want.push((kind, m.id.clone()));
                             }
                         }
@@ -340,7 +365,9 @@ fn histories(depth: usize, out: &mut ItemOut) {
     for s in &seen {
         out.add_state("history", &format!("{s:?}"));
     }
-    out.samples.push(json!({"part": "history", "sequence": "[Open(0,0), Open(0,1), EmitErr, Close(0), EmitOk]", "check": "after the re-registration chan0 receives only workflow/act completed|error messages, once each; after close nothing"}));
+    if first == 0 {
+        out.samples.push(json!({"part": "history", "sequence": "[Open(0,0), Open(0,1), EmitErr, Close(0), EmitOk]", "check": "after the re-registration chan0 receives only workflow/act completed|error messages, once each; after close nothing"}));
+    }
     for (sig, (what, path)) in viols {
         out.violations.push(Violation {
             property: "C18".into(),
@@ -360,7 +387,7 @@ impl Check for C18 {
         CheckInfo {
             id: "C18",
             level: "model_checking",
-            rule: "matrix: all 7^5 = 16807 channels built from seven patterns per field (*, literal hit, literal miss, prefix*, ?-pattern, {a,b}, [ab]x) registered together on a real engine, the messages of real runs (workflow/step/act, created/completed/skipped/error, keys, uses, node and model tags) dispatched to all of them, each delivery compared with a hand-written truth table; histories: every sequence up to the depth over {open(c, pattern), re-register(c, other pattern), close(c), unsub(c), emit a completing process, emit a failing process} for two channels that register all four handler kinds, deliveries per channel compared with the registered pattern at dispatch".into(),
+            rule: "matrix: all 7^5 = 16807 channels built from seven patterns per field (*, literal hit, literal miss, prefix*, ?-pattern, {a,b}, [ab]x) registered together on a real engine, the messages of real runs (workflow/step/act, created/completed/skipped/error, keys, uses, node and model tags) dispatched to all of them, each delivery compared with a hand-written truth table; histories: every sequence up to the depth over {open(c, pattern), re-register(c, other pattern), close(c), unsub(c), emit a completing process, emit a failing process} for two channels (one registering all four handler kinds, events only, or messages only), deliveries per channel compared with the registered pattern at dispatch".into(),
             assumptions: vec!["dispatch runs right after generation (the open/close race with a spawned dispatch is not judged: either outcome is allowed by the text)".into()],
             budget_s: tier.pick(50, 600),
             exhaustive_when_uncapped: true,
@@ -369,13 +396,15 @@ impl Check for C18 {
     }
     fn items(&self, tier: Tier) -> Vec<Value> {
         let mut v: Vec<Value> = (0..49).map(|s| json!({"id": format!("matrix/{s}"), "scenario": "matrix", "slice": s})).collect();
-        v.push(json!({"id": "history", "scenario": "history", "depth": tier.pick(4, 5)}));
+        for first in 0..12 {
+            v.push(json!({"id": format!("history/{first}"), "scenario": "history", "depth": tier.pick(4, 5), "first": first}));
+        }
         v
     }
     fn run_item(&self, _tier: Tier, item: &Value, out: &mut ItemOut) {
         match item.get("slice").and_then(|s| s.as_u64()) {
             Some(s) => matrix(s as usize, out),
-            None => histories(item["depth"].as_u64().unwrap() as usize, out),
+            None => histories(item["depth"].as_u64().unwrap() as usize, item["first"].as_u64().unwrap() as usize, out),
         }
     }
 }
